@@ -840,7 +840,9 @@ def component_count_sites(ix: Index, rel_filter: Callable[[str], bool] | None = 
                     if isinstance(seq, (ast.Tuple, ast.List)) and len(seq.elts) == 1 and not isinstance(seq.elts[0], ast.Starred):
                         x = seq.elts[0]
                         t = size_type(x, scope)
-                        if t & {DIM, AXES} or (is_rank_typed(cnt, scope) and LITERAL not in t and not _is_index_padding(x)):
+                        # a replicated *size* is a component shape; replicated objects
+                        # (None, slices, norms ...) are index padding / plain lists
+                        if t & {DIM, AXES}:
                             found.append(("repeat", x))
             elif isinstance(n, (ast.Tuple, ast.List)) and isinstance(getattr(n, "ctx", None), ast.Load):
                 stars = [i for i, x in enumerate(n.elts) if isinstance(x, ast.Starred)]
@@ -1006,11 +1008,14 @@ class SymEval:
     * ``ev_hook(node, path)`` may intercept calls (return ``NotImplemented`` to decline).
     """
 
-    def __init__(self, where: str, ev_hook: Callable | None = None, loop_hook: Callable | None = None, max_paths: int = 256):
+    def __init__(self, where: str, ev_hook: Callable | None = None, loop_hook: Callable | None = None, max_paths: int = 512, lenient: bool = False):
         self.where = where
         self.ev_hook = ev_hook
-        self.loop_hook = loop_hook
+        self.loop_hook = loop_hook if loop_hook is not None else summarise_loop
         self.max_paths = max_paths
+        self.lenient = lenient  # statements outside the grammar forget what they may assign
+        self.loops: list[LoopSummary] = []
+        self.skipped: list[str] = []
 
     def fail(self, node, msg):
         raise AnalysisError(f"{self.where}: {msg} (line {getattr(node, 'lineno', '?')})")
@@ -1031,6 +1036,19 @@ class SymEval:
         return paths
 
     def stmt(self, s: ast.stmt, p: Path) -> list[Path]:
+        if not self.lenient:
+            return self._stmt(s, p)
+        backup = p.fork()
+        n_loops = len(self.loops)
+        try:
+            return self._stmt(s, p)
+        except AnalysisError as err:
+            del self.loops[n_loops:]
+            self.skipped.append(f"{type(s).__name__}@{getattr(s, 'lineno', '?')}: {err}")
+            havoc(s, backup)
+            return [backup]
+
+    def _stmt(self, s: ast.stmt, p: Path) -> list[Path]:
         if isinstance(s, (ast.Pass, ast.Import, ast.ImportFrom, ast.FunctionDef)):
             if isinstance(s, ast.FunctionDef):
                 p.env[s.name] = ("funcdef", s)
@@ -1406,6 +1424,98 @@ class SymEval:
         t = head(*args, *kterms)
         p.events.append(("call", t, e))
         return t
+
+
+def assigned_names(node: ast.AST) -> set[str]:
+    """names a statement may rebind or mutate (stores, aug-assignments, method calls on a
+    bare name, subscript stores into a bare name)"""
+    out: set[str] = set()
+    for n in ast.walk(node):
+        if isinstance(n, ast.Name) and isinstance(n.ctx, (ast.Store, ast.Del)):
+            out.add(n.id)
+        elif isinstance(n, ast.Call) and isinstance(n.func, ast.Attribute) and isinstance(n.func.value, ast.Name):
+            out.add(n.func.value.id)
+        elif isinstance(n, ast.Subscript) and isinstance(n.ctx, ast.Store) and isinstance(n.value, ast.Name):
+            out.add(n.value.id)
+    return out
+
+
+_havoc_ids = itertools.count(1)
+
+
+def havoc(node: ast.AST, p: Path) -> None:
+    k = next(_havoc_ids)
+    for name in assigned_names(node):
+        if name in p.env:
+            old = p.env[name]
+            sym = sp.Symbol(f"{name}?{k}")
+            p.env[name] = PyList(base=sym) if isinstance(old, PyList) else sym
+
+
+@dataclass
+class LoopSummary:
+    """one symbolic iteration of a ``for`` loop"""
+
+    node: ast.For
+    pre_env: dict  # values at loop entry
+    carried: dict  # name -> symbol standing for the value at the start of an iteration
+    iter_value: Any
+    target: Any  # value(s) bound to the loop target
+    paths: list  # Paths of one iteration (outcome None = reaches the end of the body)
+    outer: Path | None = None
+
+
+def summarise_loop(s: ast.For, p: Path, ev: "SymEval"):
+    """default loop hook: run the body once on symbolic loop-carried values, record the
+    summary in ``ev.loops``; after the loop the carried values are unknown"""
+    if s.orelse:
+        ev.fail(s, "for-else")
+    it = ev.ev1(s.iter, p)
+    carried_names = assigned_names(ast.Module(body=s.body, type_ignores=[]))
+    q = p.fork()
+    q.events = []
+    carried = {}
+    for name in sorted(carried_names):
+        if name in q.env:
+            old = q.env[name]
+            sym = sp.Symbol(f"{name}@k")
+            carried[name] = sym
+            q.env[name] = PyList(base=sym) if isinstance(old, PyList) else sym
+    # loop target
+    it_term = _as_term(it)
+    tgt: Any
+    if isinstance(s.target, ast.Name):
+        tgt = F("item")(it_term)
+        q.env[s.target.id] = tgt
+    elif isinstance(s.target, ast.Tuple) and head_name(it_term) == "call_enumerate" and len(s.target.elts) == 2 and all(isinstance(t, ast.Name) for t in s.target.elts):
+        cnt = sp.Symbol(f"{s.target.elts[0].id}@k")
+        inner = positional_args(it_term)[0]
+        tgt = (cnt, F("elem")(inner, cnt))
+        q.env[s.target.elts[0].id], q.env[s.target.elts[1].id] = tgt
+    elif isinstance(s.target, ast.Tuple) and all(isinstance(t, ast.Name) for t in s.target.elts):
+        tgt = tuple(F("unpack")(F("item")(it_term), sp.Integer(i)) for i in range(len(s.target.elts)))
+        for t, v in zip(s.target.elts, tgt):
+            q.env[t.id] = v
+    else:
+        ev.fail(s, "loop target outside the grammar")
+    pre_env = {k: (v.copy() if isinstance(v, PyList) else v) for k, v in p.env.items()}
+    summary = LoopSummary(node=s, pre_env=pre_env, carried=carried, iter_value=it, target=tgt, paths=[], outer=p)
+    idx = len(ev.loops)
+    ev.loops.append(summary)
+    summary.paths = ev.run(s.body, q)
+    # after the loop
+    k = next(_havoc_ids)
+    for name in carried_names:
+        old = p.env.get(name)
+        post = [pp.env.get(name) for pp in summary.paths if pp.outcome is None]
+        sym = sp.Symbol(f"{name}@end{idx}")
+        if old is None and not post:
+            continue
+        p.env[name] = PyList(base=sym) if isinstance(old, PyList) or any(isinstance(x, PyList) for x in post) else sym
+    for t in ast.walk(s.target):
+        if isinstance(t, ast.Name):
+            p.env[t.id] = sp.Symbol(f"{t.id}@end{idx}")
+    return [p]
 
 
 def func_params(fi: FuncInfo, skip_self: bool = True) -> list[str]:
